@@ -16,7 +16,7 @@ PREFER = """  - a rarely used but documented calling variant or public method th
   - larger sizes only: dimension >= 5, batch size >= 5, observation count >= 5, more than 3 kernels / noise units;
   - an interaction between TWO different classes (a diagonal-class object handed to a method of a general-class object, a conditional handed a density produced by another conditional or by a product with a factor, an identity-type conditional composed with a general one);
   - a quantity that is correct for the FIRST batch component (or when all components are equal) and wrong for the others, in a method whose existing tests only use R=1 or identical components."""
-AVOID = "stale cached quantities after in-place changes (update, update_Sigma, update_phi, normalize), memoisation in general, tile-versus-repeat layout slips, sign slips of log-determinants, jnp.take(mode=\"clip\"), constructor branches for Lambda-only objects, class-of-result following the class of an operand (type(p_x)(...), replace()), custom JVP rules / stop_gradient, small absolute jitter constants (1e-10 * I) before an inversion, division-guard thresholds (where(Z > 1e-8, ...)), a reduction that lost its axis= argument and sums over the batch, taking component 0 of a batched argument for all components (A[0] versus A[:, 0]), exp(a)*exp(b) rewrites that under/overflow, a wrong einsum subscript in a Sherman-Morrison / rank-one update."
+AVOID = "stale cached quantities after in-place changes (update, update_Sigma, update_phi, normalize), memoisation in general, tile-versus-repeat layout slips, sign slips of log-determinants, jnp.take(mode=\"clip\"), constructor branches for Lambda-only objects, class-of-result following the class of an operand (type(p_x)(...), replace()), custom JVP rules / stop_gradient, small absolute jitter constants (1e-10 * I) before an inversion, division-guard thresholds (where(Z > 1e-8, ...)), a reduction that lost its axis= argument and sums over the batch, taking component 0 of a batched argument for all components (A[0] versus A[:, 0]), exp(a)*exp(b) rewrites that under/overflow, a wrong einsum subscript in a Sherman-Morrison / rank-one update, a log1p rewrite that drops a factor, constructor branches for objects given Sigma and Lambda without a log-determinant, silently sorting / deduplicating an index array (jnp.sort, jnp.unique), module-level constants evaluated at import time, float32 casts, operator overloads (__mul__/__rmul__) swapping operands, gains computed as I - Sigma*Lambda, all()/any() guards on array values, batch-wide flags replacing per-component masks."
 
 for pid in sys.argv[2:]:
     p = props[pid]
